@@ -158,7 +158,7 @@ package proto
 
 //@ func NewArray
 //@ assigns nothing
-//@ ensures result != nil && fresh(result) && result.index == 0 && len(result.msgs) == 0 && fresh(result.msgs)
+//@ ensures result != nil && fresh(result) && result.index == 0 && len(result.msgs) == 0 && fresh(result.msgs) && allocated(result.msgs)
 
 //@ func (*Array).Append
 //@ assigns array.msgs, elems(array.msgs), alloc
@@ -167,6 +167,7 @@ package proto
 //@ ensures forall j int :: 0 <= j && j < old(len(array.msgs)) ==> array.msgs[j] == old(array.msgs[j])
 //@ ensures array.index == old(array.index)
 //@ ensures arr(array.msgs) == old(arr(array.msgs)) || fresh(array.msgs)
+//@ ensures allocated(array.msgs)
 
 //@ func (*Message).Append
 //@ assigns msg.array.msgs, elems(msg.array.msgs), alloc
